@@ -60,7 +60,7 @@ RULE = (
 SCOPE = {"quick": {"NR": 1200, "BUDGET": 40}, "thorough": {"NR": 8000, "BUDGET": 100}}
 FLOOR = {"quick": 100000, "thorough": 400000}
 REQUIRED_MONITORS = ["ctor.refuses", "ctor.exception-class", "ctor.nothing-ill-formed", "ctor.valid-baseline", "edge.answered",
-                     "api.exception-class", "api.result-wellformed"]
+                     "api.exception-class", "api.result-wellformed", "api.refusal-stable"]
 _OV = "inscripta.biocantor.util.object_validation:ObjectValidation."
 REACH = [_OV + x for x in ("require_location_has_parent", "require_location_has_parent_with_sequence", "require_parent_has_location",
                            "require_parent_has_parent", "require_parent_has_parent_with_location", "require_parents_equal_except_location",
